@@ -12,7 +12,6 @@ terminal side = vmon/models/vt.py, cell splitting = vmon/models/grid.py):
 
 from __future__ import annotations
 
-import io
 import os
 import warnings
 
@@ -26,25 +25,33 @@ LEVEL = "exploration"
 SHARDS = {"quick": 8, "thorough": 16}
 BUDGET = {"quick": 25.0, "thorough": 420.0}
 REQUIRE = {
-    "a_cases": 3000,
-    "a_cells_source_char": 30000,
-    "a_cells_tagged": 8000,
+    "a_cases": 1500,
+    "a_cells_source_char": 10000,
+    "a_cells_tagged": 5000,
     "a_cells_wide": 1500,
     "a_cells_multibyte": 1500,
     "a_cells_dec": 300,
     "a_rows_left_trimmed": 100,
     "a_edit_cases": 200,
-    "b_cases": 1500,
-    "b_cells_judged": 30000,
+    "b_cases": 400,
+    "b_cells_judged": 15000,
     "b_cells_remapped": 5000,
-    "b_focus_map_used": 300,
+    "b_focus_map_used": 200,
+    "b_mutations_judged": 50,
     "b_chain_depth_ge3": 200,
-    "c_scenarios": 300,
+    "c_scenarios": 200,
     "c_cells_judged": 5000,
     "c_pairs_distinct_styles": 1500,
     "c_alias_cells": 100,
     "c_undefined_cells": 100,
     "c_attrspec_cells": 100,
+    "c_draws_depth_1": 30,
+    "c_draws_depth_16": 30,
+    "c_draws_depth_88": 30,
+    "c_draws_depth_256": 30,
+    "c_draws_depth_16777216": 30,
+    "c_draws_bright_is_bold_True": 100,
+    "c_draws_bright_is_bold_False": 100,
 }
 RULE = (
     "(a) case = (encoding utf-8|euc-jp|ascii|iso8859-1, str|bytes markup, nested markup descriptor depth<=4 over a text of "
@@ -83,6 +90,7 @@ CJK_JP = "漢字日本語東京都あいうえおカキクケコ山川"
 CJK_X = "한글中文"
 EMOJI = "😀🎉🚀"
 DEC = "◆▒°±┘┐┌└┼─├┤┴┬│≤≥π≠£·"
+COMBINING = "\u0301\u0308\u0323"  # zero-width: attach to the previous cell but keep their own attribute run
 ELL = "…"
 
 ENCODINGS = {
@@ -96,7 +104,7 @@ ENCODINGS = {
 def alphabet(enc: str, as_bytes: bool):
     """[(chars, weight)] valid for that encoding; every character encodes to width-many bytes in wide mode"""
     if enc == "utf-8":
-        return [(ASCII, 5), (LATIN, 2), (TWOBYTE, 1), (CJK_JP + CJK_X, 4), (EMOJI, 1), (DEC, 2)]
+        return [(ASCII, 5), (LATIN, 2), (TWOBYTE, 1), (CJK_JP + CJK_X, 4), (EMOJI, 1), (DEC, 2), (COMBINING, 0.6)]
     if enc == "euc-jp":
         if as_bytes:
             return [(ASCII, 5), (CJK_JP, 4)]
@@ -295,7 +303,10 @@ def _match_leading(cells, src, prv):
     def after_spaces(i, s):
         if fill_from(i):
             return True
-        if s >= 0 and char_cols(src[s][0]) == 2 and cells[i][0] == "S" and cells[i][1] == src[s][1]:
+        t = s
+        while t >= 0 and char_cols(src[t][0]) == 0 and src[t][0] != "\n":
+            t -= 1  # zero-width marks ride on the cut character
+        if t >= 0 and char_cols(src[t][0]) == 2 and cells[i][0] == "S" and any(_same(cells[i][1], src[u][1]) for u in range(t, s + 1)):
             return fill_from(i + 1)
         return False
 
@@ -430,6 +441,8 @@ def a_eval(case, stats=None):
                 seen_any_attr = True
             if w == 2:
                 cnt("a_cells_wide")
+            if w == 0:
+                cnt("a_cells_zero_width")
             if nb > 1:
                 cnt("a_cells_multibyte")
             if cs == "0":
@@ -815,10 +828,6 @@ def b_apply_mut(tree, mut):
     else:
         node[3] = spec
     return t, (k, op, spec)
-
-
-class _Region:
-    __slots__ = ("rows",)
 
 
 def b_model(node, width, focus, nrows=None):
@@ -1297,12 +1306,6 @@ def _spec_valid_for(colour: str, colors: int) -> bool:
     if colour.startswith("#") and len(colour) == 7:
         return colors != 88
     return True
-
-
-def c_expect_style(exp, bib):
-    """expected (fa, ba, flags) -> comparable description used in messages"""
-    fa, ba, flags = exp
-    return (sorted(map(repr, fa)), sorted(map(repr, ba)), sorted(flags))
 
 
 def c_cell_ok(cell, exp, bib):
